@@ -1,4 +1,5 @@
 mod emit;
+mod front;
 mod gen;
 mod model;
 mod parse;
@@ -127,10 +128,156 @@ fn cmd_gen(args: &[String]) {
     println!("{}", stats);
 }
 
+fn write_events(out: &str, shards: usize, evs: Vec<(Value, Value)>, stats: Value) {
+    std::fs::create_dir_all(out).unwrap();
+    let mut traces: Vec<std::io::BufWriter<std::fs::File>> = (0..shards)
+        .map(|k| std::io::BufWriter::new(std::fs::File::create(format!("{}/trace_{}.ndjson", out, k)).unwrap()))
+        .collect();
+    let mut index = std::io::BufWriter::new(std::fs::File::create(format!("{}/index.ndjson", out)).unwrap());
+    for (i, (ev, idx)) in evs.iter().enumerate() {
+        writeln!(traces[i % shards], "{}", ev).unwrap();
+        writeln!(index, "{}", idx).unwrap();
+    }
+    for t in traces.iter_mut() {
+        t.flush().unwrap();
+    }
+    index.flush().unwrap();
+    std::fs::write(format!("{}/stats.json", out), stats.to_string()).unwrap();
+    println!("{}", stats);
+}
+
+fn cmd_gen_front(args: &[String]) {
+    use rand::{Rng, SeedableRng};
+    let kind = arg(args, "--kind").expect("--kind");
+    let tier = arg(args, "--tier").unwrap_or_else(|| "quick".into());
+    let thorough = tier == "thorough";
+    let seed: u64 = arg(args, "--seed").and_then(|s| s.parse().ok()).unwrap_or(0);
+    let out = arg(args, "--out").expect("--out");
+    let shards: usize = arg(args, "--shards").and_then(|s| s.parse().ok()).unwrap_or(8);
+    let tmp = format!("{}/tmp", out);
+    std::fs::create_dir_all(&tmp).unwrap();
+    model::silence_panics();
+    let self_exe = std::env::current_exe().unwrap().to_string_lossy().to_string();
+    let builds = std::sync::atomic::AtomicU64::new(0);
+    let rng_for = |i: usize| rand::rngs::StdRng::seed_from_u64(seed.wrapping_mul(0x9E3779B97F4A7C15).wrapping_add(i as u64 + 17));
+    let mut evs: Vec<(Value, Value)> = vec![];
+    match kind.as_str() {
+        "hist" => {
+            let n = if thorough { 40000 } else { 4000 };
+            evs = (0..n)
+                .into_par_iter()
+                .map(|i| {
+                    let mut rng = rng_for(i);
+                    let (sets, ops) = front::random_history(&mut rng, 12, true);
+                    builds.fetch_add(ops.len() as u64, std::sync::atomic::Ordering::Relaxed);
+                    front::run_rust_history(i + 1, &sets, &ops)
+                })
+                .collect();
+            // threads and fresh processes
+            let m = if thorough { 40 } else { 8 };
+            for k in 0..m {
+                let mut rng = rng_for(1_000_000 + k);
+                let letters: Vec<&str> = vec!["p", "q", "1", "a", "\u{663}", "b"];
+                let mut list = gen::shaped_set(&mut rng, &letters, 6, 3);
+                if k == 0 {
+                    list = vec!["p1".into(), "pa".into(), "q\u{663}".into(), "qa".into()];
+                }
+                let mut cfg = model::Cfg::from_bits(rng.gen::<u32>() & 0x3BFF);
+                if k == 0 {
+                    cfg = model::Cfg::default().with("digit", true);
+                }
+                evs.push(front::run_threads(n + 1 + 2 * k, &list, &cfg, 16, if thorough { 64 } else { 16 }));
+                evs.push(front::run_procs(n + 2 + 2 * k, &list, &cfg, if thorough { 24 } else { 12 }, &self_exe, &tmp));
+                builds.fetch_add(16 * 16 + 12, std::sync::atomic::Ordering::Relaxed);
+            }
+        }
+        "cli" => {
+            let bin = arg(args, "--cli-bin").expect("--cli-bin");
+            let n = if thorough { 20000 } else { 1600 };
+            evs = (0..n)
+                .into_par_iter()
+                .map(|i| {
+                    let mut rng = rng_for(i);
+                    let sc = front::random_cli_scenario(&mut rng, i, thorough);
+                    builds.fetch_add(1, std::sync::atomic::Ordering::Relaxed);
+                    front::run_cli(i + 1, &sc, &bin, &tmp)
+                })
+                .collect();
+        }
+        "replay" => {
+            // re-execute recorded scenarios (index entries, one JSON object per line)
+            let plan = arg(args, "--plan").expect("--plan");
+            let bin = arg(args, "--cli-bin").unwrap_or_default();
+            let strs = |x: &Value| -> Vec<String> {
+                x.as_array().map(|a| a.iter().map(|s| s.as_str().unwrap_or("").to_string()).collect()).unwrap_or_default()
+            };
+            for (i, line) in std::fs::read_to_string(&plan).unwrap().lines().enumerate() {
+                let v: Value = serde_json::from_str(line).unwrap();
+                let h = i + 1;
+                match v["kind"].as_str().unwrap_or("") {
+                    "hist-rust" => {
+                        let sets: Vec<Vec<String>> = v["sets"].as_array().unwrap().iter().map(|x| strs(x)).collect();
+                        let mut ops = vec![];
+                        let mut set_of_list = |l: &Vec<String>| -> usize {
+                            let mut a = l.clone();
+                            a.sort();
+                            a.dedup();
+                            sets.iter().position(|s| { let mut b = s.clone(); b.sort(); b.dedup(); b == a }).map(|p| p + 1).unwrap_or(1)
+                        };
+                        for o in v["ops"].as_array().unwrap() {
+                            let id = o["o"].as_u64().unwrap_or(0) as usize;
+                            match o["op"].as_str().unwrap() {
+                                "new" => { let list = strs(&o["list"]); let set = set_of_list(&list); ops.push(front::Op::New { o: id, set, list }) }
+                                "set" => ops.push(front::Op::Set { o: id, name: o["name"].as_str().unwrap().to_string(), arg: o["arg"].as_i64().unwrap_or(0) }),
+                                "clone" => ops.push(front::Op::Clone { o: id, ret: o["ret"].as_u64().unwrap() as usize }),
+                                _ => ops.push(front::Op::Build { o: id }),
+                            }
+                        }
+                        evs.push(front::run_rust_history(h, &sets, &ops));
+                    }
+                    "threads" => evs.push(front::run_threads(h, &strs(&v["list"]), &model::Cfg::from_json(&v["cfg"]), 16, 32)),
+                    "procs" => evs.push(front::run_procs(h, &strs(&v["list"]), &model::Cfg::from_json(&v["cfg"]), 16, &self_exe, &tmp)),
+                    "cli" => {
+                        let flags: Vec<&'static str> = strs(&v["flags"]).iter()
+                            .filter_map(|f| front::CLI_FLAGS.iter().find(|x| **x == f.as_str()).copied()).collect();
+                        let channel = ["args", "stdin", "file", "filestdin"].iter().find(|c| **c == v["channel"].as_str().unwrap_or("args")).copied().unwrap();
+                        let sc = front::CliScenario {
+                            flags, minrep: v["minrep"].as_i64().unwrap_or(1), minsub: v["minsub"].as_i64().unwrap_or(1), channel,
+                            args: strs(&v["args"]),
+                            content: v["content_bytes"].as_array().map(|a| a.iter().map(|b| b.as_u64().unwrap_or(0) as u8).collect()).unwrap_or_default(),
+                            readable: v["readable"].as_bool().unwrap_or(true),
+                        };
+                        evs.push(front::run_cli(h, &sc, &bin, &tmp));
+                    }
+                    other => panic!("cannot replay kind {}", other),
+                }
+            }
+        }
+        other => panic!("unknown front kind {}", other),
+    }
+    let _ = std::fs::remove_dir_all(&tmp);
+    let n = evs.len();
+    write_events(&out, shards, evs, json!({"driver": kind, "tier": tier, "seed": seed, "plans": n, "groups": n,
+        "distinct_groups": n, "builds": builds.into_inner(), "events": n, "max_atoms": 0, "notes": []}));
+}
+
+fn cmd_build_one(args: &[String]) {
+    let v: Value = serde_json::from_str(&std::fs::read_to_string(&args[0]).unwrap()).unwrap();
+    let list: Vec<String> = v["list"].as_array().unwrap().iter().map(|s| s.as_str().unwrap().to_string()).collect();
+    let cfg = model::Cfg::from_json(&v["cfg"]);
+    model::silence_panics();
+    match model::plain_build(&list, &cfg) {
+        Ok(s) => print!("{}", s),
+        Err(e) => print!("PANIC {}", e),
+    }
+}
+
 fn main() {
     let args: Vec<String> = std::env::args().collect();
     match args.get(1).map(|s| s.as_str()) {
         Some("gen") => cmd_gen(&args[2..]),
+        Some("gen-front") => cmd_gen_front(&args[2..]),
+        Some("build-one") => cmd_build_one(&args[2..]),
         _ => {
             eprintln!("usage: gv gen --driver NAME --tier quick|thorough --seed N --out DIR [--shards K]");
             std::process::exit(2);
